@@ -31,6 +31,8 @@ func init() {
 				Edits: []Edit{{File: "driver/network/operation.go", Old: "\t\t\tif !errors.Is(err, util.ErrIgnoredOption) {\n\t\t\t\treturn nil, err\n\t\t\t}", New: "\t\t\tif !errors.Is(err, util.ErrIgnoredOption) {\n\t\t\t\treturn nil, err\n\t\t\t}\n\n\t\t\tbreak"}}},
 			{ID: "C04-graph-needs-escalate", Desc: "levels without an escalate command are not linked into the graph", Rule: "C04/graph-links",
 				Edits: []Edit{{File: "driver/network/privilege.go", Old: "\t\tif privLevel.PreviousPriv != \"\" {", New: "\t\tif privLevel.PreviousPriv != \"\" && privLevel.Escalate != \"\" {"}}},
+			{ID: "C04-unknown-level-class", Desc: "undeterminable level reported as an operation error", Rule: "C04/error-classes",
+				Edits: []Edit{{File: "driver/network/acquirepriv.go", Old: "\t\t\tutil.ErrPrivilegeError, currentPrompt,", New: "\t\t\tutil.ErrOperationError, currentPrompt,"}}},
 			{ID: "C04-fromfile-skips-acquire", Desc: "SendCommandsFromFile skips the implicit acquire", Rule: "C04/acquire-before-send",
 				Edits: []Edit{{File: "driver/network/sendcommands.go", Old: "\tf string,\n\topts ...util.Option,\n) (*response.MultiResponse, error) {\n\tif d.CurrentPriv != d.DefaultDesiredPriv {", New: "\tf string,\n\topts ...util.Option,\n) (*response.MultiResponse, error) {\n\tif d.CurrentPriv != d.DefaultDesiredPriv && f == \"\" {"}}},
 			{ID: "C04-unknown-only-empty", Desc: "unknown-target refusal only for the empty name", Rule: "C04/refuse-unknown-first",
@@ -58,6 +60,8 @@ func init() {
 }
 
 func runC04(c *Ctx, r *Report) {
+	r.Rule("C04/error-classes", "each failure site named by the property wraps the sentinel the property names (timeout / auth / connection / privilege / NETCONF / operation / platform error)", 2)
+	checkErrorClasses(c, r, "C04")
 	r.Rule("C04/refuse-unknown-first", "an unknown target is refused with ErrPrivilegeError before anything that can reach the transport", 2)
 	r.Rule("C04/level-detection", "a level is a candidate exactly when its pattern matches the prompt and no not-contains string occurs in it (substring); the two list helpers are exists-loops", 3)
 	r.Rule("C04/op-options-applied", "the per-operation option constructors (network, generic, channel) apply the full list in order and leave the loop only on a non-ignored error", 3)
